@@ -133,6 +133,8 @@ def check_output(inp, opts, out):
         inner = [sid for sid in ids if not (sid.endswith("-start") or sid.endswith("-end"))]
         if not dis["capacity"]:
             for res in resources_of(inp):
+                if res in (dis.get("capacities") or []):
+                    continue
                 cap = cap_of(v, res)
                 lvl = cap_of(v, res, "start_level") if v.get("capacity") is not None else 0
                 for sid in inner:
@@ -252,11 +254,14 @@ def check_output(inp, opts, out):
             F["C05"].append("travel_duration base %s, sum of route travel durations %s" % (terms["travel_duration"].get("base"), exp))
     # early / late arrival: the output carries target and arrival per stop; durations and penalties follow from them
     exp_early = exp_late = 0.0
+    unanchored = False
     tol_early = tol_late = 1e-6
     for vid, (ids, vo) in routes.items():
         for st in vo.get("route", []):
             sid = st["stop"]["id"]
             src = stops.get(sid) or alts.get(sid)
+            if src is not None and st.get("target_arrival_time") and not st.get("arrival_time"):
+                unanchored = True        # vehicle without start_time: no absolute timeline in the output to recompute from
             if src is None or not st.get("target_arrival_time") or not st.get("arrival_time"):
                 continue
             tgt, arr = ts(st["target_arrival_time"]), ts(st["arrival_time"])
@@ -272,9 +277,9 @@ def check_output(inp, opts, out):
             exp_late += fl * late
             tol_early += fe
             tol_late += fl
-    if "early_arrival_penalty" in terms and abs(terms["early_arrival_penalty"].get("base", 0) - exp_early) > tol_early:
+    if "early_arrival_penalty" in terms and not unanchored and abs(terms["early_arrival_penalty"].get("base", 0) - exp_early) > tol_early:
         F["C05"].append("early_arrival_penalty base %s, penalties x early durations of the routes %s" % (terms["early_arrival_penalty"].get("base"), exp_early))
-    if "late_arrival_penalty" in terms and abs(terms["late_arrival_penalty"].get("base", 0) - exp_late) > tol_late:
+    if "late_arrival_penalty" in terms and not unanchored and abs(terms["late_arrival_penalty"].get("base", 0) - exp_late) > tol_late:
         F["C05"].append("late_arrival_penalty base %s, penalties x late durations of the routes %s" % (terms["late_arrival_penalty"].get("base"), exp_late))
     if "vehicle_activation_penalty" in terms:
         exp = sum((veh_in[vid].get("activation_penalty") or 0) for vid, (ids, vo) in routes.items()
@@ -299,6 +304,37 @@ def check_output(inp, opts, out):
                 exp += pen * (int(mn) - n) ** 2
         if abs(terms["min_stops"].get("base", 0) - exp) > 1e-6 * max(1.0, exp):
             F["C05"].append("min_stops base %s, penalties of the vehicles below their minimum %s" % (terms["min_stops"].get("base"), exp))
+    for tname, term in terms.items():
+        if not tname.startswith("capacity_"):
+            continue
+        res = tname[len("capacity_"):]
+        offset = 0.0
+        toks = (opts["objectives"].get("capacities") or "").split(";")
+        for k in range(0, len(toks) - 2, 3):
+            if toks[k] == "name=" + res:
+                offset = float(toks[k + 2].split("=")[1])
+        allsrc = list(inp["stops"]) + list(inp.get("alternate_stops", []))
+        no_negative = all(quantity_of(x, res) <= 0 for x in allsrc) and all(cap_of(v, res, "start_level") >= 0 for v in inp["vehicles"])
+        exp = 0.0
+        for v in inp["vehicles"]:
+            ids = routes.get(v["id"], ([], None))[0]
+            cap = cap_of(v, res)
+            cum = cap_of(v, res, "start_level")
+            seq = [cum]                       # first stop of the vehicle
+            for sid in ids:
+                if sid.endswith("-start") or sid.endswith("-end"):
+                    continue
+                cum -= quantity_of(stops.get(sid) or alts.get(sid), res)
+                seq.append(cum)
+            seq.append(cum)                   # last stop of the vehicle
+            if no_negative:
+                exp += max(0.0, seq[-1] - cap)
+            else:
+                exp += sum(max(0.0, c - cap) for c in seq)
+        if exp > 0:
+            exp += offset
+        if abs(term.get("base", 0) - exp) > 1e-6 * max(1.0, exp):
+            F["C05"].append("%s base %s, excess over the capacities recomputed from the routes %s" % (tname, term.get("base"), exp))
     # ---- C20 custom data pass-through
     for vo in out.get("vehicles", []):
         if veh_in[vo["id"]].get("custom_data") != vo.get("custom_data"):
